@@ -30,6 +30,35 @@ def _inline_self(fn, t, d):
                                        and len(t.funcs) == 1 and fn.name == "canhandlerequest")
 
 
+def _next_first_match(value, func, defs):
+    """`next((c for c in CANDIDATES if c.canhandlerequest()), default)`: None if `value` is not of that form,
+    else the list of problems with it ([] = first accepting candidate, in iteration order, is returned)."""
+    from ..facts import expand_ast
+
+    if not (isinstance(value, ast.Call) and isinstance(value.func, ast.Name) and value.func.id == "next" and value.args):
+        return None
+    g = expand_ast(value.args[0], func, defs) if defs else expand_ast(value.args[0], func)
+    if not isinstance(g, ast.GeneratorExp) or len(g.generators) != 1:
+        return None
+    comp = g.generators[0]
+    var = norm(comp.target)
+    problems = []
+    if norm(g.elt) != var:
+        problems.append("the object returned is not the candidate that was tested")
+    tests = [t for t in comp.ifs if isinstance(t, ast.Call) and isinstance(t.func, ast.Attribute) and t.func.attr == "canhandlerequest"
+             and norm(t.func.value) == var]
+    if len(tests) != 1 or len(comp.ifs) != 1:
+        problems.append("candidates are not filtered by exactly their own canhandlerequest()")
+    src = comp.iter
+    # candidates: objects built by calling each class of the list, in order
+    if isinstance(src, (ast.GeneratorExp, ast.ListComp)) and len(src.generators) == 1 and not src.generators[0].ifs \
+            and isinstance(src.elt, ast.Call) and norm(src.elt.func) == norm(src.generators[0].target):
+        pass
+    else:
+        problems.append(f"candidates come from `{norm(src)[:40]}`, not from calling each configured class in turn")
+    return problems
+
+
 def check(ctx, rep):
     prog = ctx.prog
     eff = Effects(prog, ctx.resolver)
@@ -70,6 +99,10 @@ def check(ctx, rep):
                 continue
             n_ret += 1
             name = norm(ret.node.value)
+            fm = _next_first_match(ret.node.value, gp, ret.defs)
+            if fm is not None:
+                problems.update(fm)  # `return next(<candidates that accept>, default)`: first match by construction
+                continue
             tests = [e for e in p.events if e.kind == "test" and isinstance(e.node, ast.Call)
                      and isinstance(e.node.func, ast.Attribute) and e.node.func.attr == "canhandlerequest"]
             acc = [i for i, e in enumerate(tests) if e.extra is True]
@@ -190,10 +223,13 @@ def check(ctx, rep):
         """`<recv(...)> == b'\\x16'` (directly or through a local bound to the recv call)."""
         if not (isinstance(node, ast.Compare) and len(node.ops) == 1 and isinstance(node.ops[0], (ast.Eq, ast.NotEq))):
             return False
+        from ..paths import NOCONST, const_value
+
         sides = [node.left, node.comparators[0]]
-        const = [s for s in sides if isinstance(s, ast.Constant)]
-        other = [s for s in sides if not isinstance(s, ast.Constant)]
-        if len(const) != 1 or const[0].value != b"\x16" or len(other) != 1:
+        vals = [const_value(prog, s_, ws, bs) for s_ in sides]  # literals and module/class constants
+        const = [v for v in vals if v is not NOCONST]
+        other = [s_ for s_, v in zip(sides, vals) if v is NOCONST]
+        if len(const) != 1 or const[0] != b"\x16" or len(other) != 1:
             return False
         o = other[0]
         if isinstance(o, ast.Name):
